@@ -392,7 +392,7 @@ Definition sp_z64rec (m : smember) (off : Z) : bytes :=                         
   let body := (if sat (m_satu m) (m_usize m) then le_enc 8 (m_usize m) else [])
            ++ (if sat (m_satc m) (sp_csize m) then le_enc 8 (sp_csize m) else [])
            ++ (if sat (m_sato m) off then le_enc 8 off else []) in
-  match body with [] => [] | _ => le_enc 2 1 ++ le_enc 2 (zlen body) ++ body end.
+  if zlen body =? 0 then [] else le_enc 2 1 ++ le_enc 2 (zlen body) ++ body.
 Definition sp_cextra (m : smember) (off : Z) : bytes :=
   if m_z64last m then m_cextra m ++ sp_z64rec m off else sp_z64rec m off ++ m_cextra m.
 Definition sp_cdh (m : smember) (off : Z) : bytes :=
@@ -478,3 +478,33 @@ Definition sized_of (m : smember) : sized :=
 Definition local_ok (m : smember) : Prop :=
   zlen (m_name m) < 65536 /\ zlen (sp_lextra m) < 65536 /\ Z.land (m_flags m) 8 = 0 /\
   0 <= m_crc m < 4294967296 /\ desc_ok (m_desc m) (sp_csize m) (m_usize m).
+
+(* local entries laid out back to back from offset o, and directory entries that describe them *)
+Definition ent_matches (m : smember) (off : Z) (f : cdent) : Prop :=
+  e_offset f = off /\ e_csize f = sp_csize m /\ e_usize f = m_usize m /\ e_crc f = m_crc m.
+Inductive placed : Z -> list smember -> list cdent -> Prop :=
+| placed_nil o : placed o [] []
+| placed_cons o m ms f fs : ent_matches m o f -> placed (o + zlen (sp_local m)) ms fs -> placed o (m :: ms) (f :: fs).
+Definition locals (ms : list smember) : bytes := concat (map sp_local ms).
+
+(* what ReadWithDirectory must produce for the central entry of m located at off *)
+Definition parsed_ent (m : smember) (off : Z) : cdent :=
+  mkEnt (m_creator m) (m_reader m) (sp_flags m) (m_method m) (m_mtime m) (m_mdate m) (m_crc m) (sp_csize m) (m_usize m)
+        (m_name m) (sp_cextra m off) (m_comment m) (m_iattrs m) (m_eattrs m) off (sp_central m off).
+
+(* well-formed extra-field data: header-id / size / body records (4.5.1), none of them the ZIP64 record *)
+Inductive wf_extra : bytes -> Prop :=
+| wf_extra_nil : wf_extra []
+| wf_extra_rec tag body rest : 0 <= tag < 65536 -> tag <> 1 -> zlen body < 65536 -> wf_extra rest ->
+    wf_extra (le_enc 2 tag ++ le_enc 2 (zlen body) ++ body ++ rest).
+Definition sat_u (m : smember) : bool := sat (m_satu m) (m_usize m).
+Definition sat_c (m : smember) : bool := sat (m_satc m) (sp_csize m).
+Definition sat_o (m : smember) (off : Z) : bool := sat (m_sato m) off.
+(* a central entry relic can read: field ranges, and the saturated set is one relic's positional ZIP64 reader handles *)
+Definition central_ok (m : smember) (off : Z) : Prop :=
+  0 <= m_creator m < 65536 /\ 0 <= m_reader m < 65536 /\ 0 <= m_flags m < 65536 /\ 0 <= m_method m < 65536 /\
+  0 <= m_mtime m < 65536 /\ 0 <= m_mdate m < 65536 /\ 0 <= m_crc m < 4294967296 /\ 0 <= m_iattrs m < 65536 /\
+  0 <= m_eattrs m < 4294967296 /\ zlen (m_name m) < 65536 /\ zlen (sp_cextra m off) < 65536 /\ zlen (m_comment m) < 65536 /\
+  0 <= m_usize m < 2 ^ 64 /\ sp_csize m < 2 ^ 64 /\ 0 <= off < 2 ^ 64 /\
+  (sat_o m off = true -> sat_c m = true) /\ (sat_c m = true -> sat_u m = true) /\
+  (sat_u m = true -> m_z64last m = true -> wf_extra (m_cextra m)).
